@@ -85,45 +85,172 @@ def _r1(ctx):
             return
         it, ifs, elt0 = lb[0].iter, (), lb[1]
     R = ("param", "reactions")
-    # the comprehension enumerates zip(guards, rate expressions), both position-preserving views of `reactions`
-    b = match(("call", ("global", "enumerate"), (V("z"),), ()), it)
-    zargs = b["z"][2] if b and b["z"][0] == "call" and b["z"][1] == ("global", "zip") and not b["z"][3] else None
-
+    # the statements enumerate zip(guards, rate expressions), both position-preserving views of `reactions`
     import builtins
+    import os
+    from ..valueflow import strip_transparent, subst
+    SELFS = (("param", "self"), ("param", "cls"))
+    cache, serial = {}, itertools.count(1)
 
-    def sources(a):
-        """[(sequence the view ranges over, filtered?)] of a list value: through if/else arms, comprehensions, zip"""
+    def shift(v, off):
+        """loop ids / comprehension-variable ids of a helper's own flow moved out of the way of the caller's"""
+        if not isinstance(v, tuple) or not v:
+            return v
+        if v[0] in ("elem", "idx", "key", "val", "carried", "after") and len(v) == 3 and isinstance(v[2], int):
+            return (v[0], shift(v[1], off), v[2] + off)
+        if v[0] == "bv" and len(v) == 3 and isinstance(v[2], int):
+            return ("bv", v[1], v[2] + off)
+        return tuple(shift(x, off) if isinstance(x, tuple) else x for x in v)
+
+    def summarise(z):
+        """A call to a helper of the class / a function of the package that RETURNS a list: ("loop", loop id, iter, elt) when the list
+        is filled by a one-append-per-iteration loop, ("value", IR) when it is an expression of the arguments; None otherwise.  The
+        helper is analysed on its own (valueflow) and its parameters replaced by the argument values."""
+        if z in cache:
+            return cache[z]
+        cache[z] = None
+        callee = file_ = None
+        if z[0] == "meth" and z[1] in SELFS and len(z) == 5:
+            _, callee = pkg.resolve("TemplateLoader", z[2])
+            file_, args, kws = FILE, z[3], z[4]
+        elif z[0] == "call" and z[1][0] == "global" and not hasattr(builtins, z[1][1]):
+            name = z[1][1]
+            callee, file_ = pkg.functions.get((FILE, name)), FILE
+            imp = pkg.imports.get(FILE, {}).get(name)
+            if callee is None and imp and imp[0].startswith("."):
+                lvl = len(imp[0]) - len(imp[0].lstrip("."))
+                base = os.path.dirname(FILE)
+                for _ in range(lvl - 1):
+                    base = os.path.dirname(base)
+                file_ = os.path.join(base, *imp[0].lstrip(".").split(".")) + ".py" if imp[0].lstrip(".") else None
+                callee = pkg.functions.get((file_, imp[1])) if file_ else None
+            args, kws = z[2], z[3]
+        if callee is None or callee is fn or callee.args.vararg or callee.args.kwarg or any(k == "**" for k, _ in kws) or any(a[0] == "star" for a in args):
+            return None
+        decs = {ast.unparse(d) for d in callee.decorator_list}
+        params = [a.arg for a in callee.args.args]
+        if decs - {"staticmethod", "classmethod"}:
+            return None
+        if z[0] == "meth" and "staticmethod" not in decs:
+            params = params[1:]
+        if len(args) > len(params) or any(k not in params for k, _ in kws):
+            return None
+        given = dict(zip(params, args))
+        given.update(dict(kws))
+        defaults = dict(zip(params[len(params) - len(callee.args.defaults):], callee.args.defaults))
+        for p_ in params:
+            if p_ not in given and isinstance(defaults.get(p_), ast.Constant):
+                given[p_] = ("const", defaults[p_].value)
+        sub = Flow(callee, file_, resolver=(lambda name: pkg.resolve("TemplateLoader", name)[1]) if z[0] == "meth" else None)
+        rs = [f for f in sub.facts if f.kind == "return"]
+        if len(rs) != 1 or rs[0].loops:
+            return None
+        off = 1000 * next(serial)
+        bind = {("param", p_): v_ for p_, v_ in given.items()}
+        rv = simp(rs[0].value)
+        for lp_ in sub.all_loops.values():
+            extra_bvals.update({shift(k_, off): subst(shift(v_, off), bind) for k_, v_ in lp_.bvals.items()})
+        if rv[0] == "acc":
+            lb_ = loop_built_seq(sub, rv[1])
+            if lb_ is None:
+                return None
+            cache[z] = ("loop", lb_[0].id + off, subst(shift(lb_[0].iter, off), bind), subst(shift(lb_[1], off), bind))
+        elif rv[0] in ("comp", "copy", "phi", "ifexp", "param", "list"):
+            cache[z] = ("value", subst(shift(rv, off), bind))
+        return cache[z]
+    extra_bvals = {}
+
+    def seqs_of(it_):
+        """the sequences a loop walks position by position: through enumerate(..) and zip(..)"""
+        it_ = strip_transparent(simp(it_))
+        if it_[0] == "call" and it_[1] == ("global", "enumerate") and it_[2]:
+            return seqs_of(it_[2][0])
+        if it_[0] == "call" and it_[1] == ("global", "zip") and not it_[3]:
+            return [x for a in it_[2] for x in seqs_of(a)]
+        return [it_]
+
+    def sources(a, depth=0):
+        """[(sequence the view ranges over, filtered?)] of a list value: through if/else arms, comprehensions, zip, list-building helpers"""
         a = simp(a)
         if a[0] in ("phi", "ifexp"):
-            return sources(a[2]) + sources(a[3])
+            return sources(a[2], depth) + sources(a[3], depth)
         if a[0] == "copy":
-            return sources(a[1])
+            return sources(a[1], depth)
         if a[0] == "comp" and len(a[3]) == 1:
             tg_, it_, ifs_ = a[3][0]
-            inner = [x for z in it_[2] for x in sources(z)] if it_[0] == "call" and it_[1] == ("global", "zip") and not it_[3] else sources(it_)
-            return [(b_, f_ or bool(ifs_)) for b_, f_ in inner]
+            return [(b_, f_ or bool(ifs_)) for z in seqs_of(it_) for b_, f_ in sources(z, depth)]
+        sm = summarise(a) if depth < 3 else None
+        if sm is not None and sm[0] == "loop":
+            return [x for z in seqs_of(sm[2]) for x in sources(z, depth + 1)]
+        if sm is not None:
+            return sources(sm[1], depth + 1)
         return [(a, False)]
 
     def opaque(b_):
-        """a sequence whose construction this rule cannot see (un-inlined helper of the class, list filled by an unreviewed loop);
+        """a sequence whose construction this rule cannot see (helper that could not be read, list filled by an unreviewed loop);
         a parameter, an attribute, a builtin applied to those (reversed(..), sorted(..), x[1:]) is visible"""
         if b_[0] in ("param", "attr", "global", "sub", "list", "tuple"):
             return False
         if b_[0] == "call" and b_[1][0] == "global" and hasattr(builtins, b_[1][1]):
             return any(opaque(x) for x in b_[2])
         return True
-    srcs = [x for a in zargs for x in sources(a)] if zargs is not None else []
-    if zargs is None or any(opaque(b_) for b_, _ in srcs):
+    b = match(("call", ("global", "enumerate"), (V("z"),), ()), it)
+    srcs = [x for a in seqs_of(b["z"]) for x in sources(a)] if b else []
+    if not b or any(opaque(b_) for b_, _ in srcs):
         ctx.unrec("R1", "_assign_rates:iteration", (FILE, rets[0].line),
                   "cannot see how the statements are paired with the reactions (expected enumerate(zip(guards, rates)) over views of `reactions`): " + show(it)[:160])
         return
-    ok_it = all(seq_base(a) == R for a in zargs) and not ifs
+    ok_it = all(b_ == R and not f_ for b_, f_ in srcs) and not ifs
     ctx.check(ok_it, "R1", "_assign_rates:iteration", (FILE, rets[0].line),
               "statements are built over enumerate(zip(guards, rates)) where both are unfiltered one-to-one views of the same `reactions` list",
               found=show(it)[:200])
     if not ok_it:
         return
-    elt = expand_bvals(fl, simp(elt0))     # (simp first: elements of comprehensions are resolved while their variables are still bound)
+
+    # elements of lists returned by helpers: the helper's element expression at the same position
+    def helped(z):
+        z = simp(z)
+        if z[0] in ("phi", "ifexp"):
+            return helped(z[2]) or helped(z[3])
+        if z[0] == "call" and z[1] == ("global", "zip"):
+            return any(helped(a) for a in z[2])
+        return summarise(z) is not None
+
+    def at(z, l_, depth=0):
+        z = simp(z)
+        if z[0] in ("phi", "ifexp"):
+            return ("phi", z[1], at(z[2], l_, depth), at(z[3], l_, depth))
+        sm = summarise(z) if depth < 4 else None
+        if sm is not None and sm[0] == "loop":
+            return resolve(subst_loop(sm[3], sm[1], l_), depth + 1)
+        if sm is not None:
+            return at(sm[1], l_, depth + 1)
+        return simp(("elem", z, l_))
+
+    def subst_loop(v_, old, new_):
+        if not isinstance(v_, tuple) or not v_:
+            return v_
+        if v_[0] in ("elem", "idx") and len(v_) == 3 and v_[2] == old:
+            return (v_[0], subst_loop(v_[1], old, new_), new_)
+        return tuple(subst_loop(x, old, new_) if isinstance(x, tuple) else x for x in v_)
+
+    def resolve(v_, depth=0):
+        if not isinstance(v_, tuple) or not v_:
+            return v_
+        if v_[0] == "elem" and len(v_) == 3 and helped(v_[1]):
+            return at(v_[1], v_[2], depth)
+        if v_[0] == "idx" and len(v_) == 3 and helped(v_[1]) and all(b_ == R and not f_ for z in seqs_of(v_[1]) for b_, f_ in sources(z)):
+            return ("idx", R, v_[2])
+        return tuple(resolve(x, depth) if isinstance(x, tuple) else x for x in v_)
+    elt = simp(resolve(elt0))     # (simp first: elements of comprehensions are resolved while their variables are still bound)
+    allb = dict(extra_bvals)
+    for lp_ in fl.all_loops.values():
+        allb.update(lp_.bvals)
+    for _ in range(6):
+        e2 = simp(resolve(subst(elt, allb)))
+        if e2 == elt:
+            break
+        elt = e2
     lids = {x[2] for x in walk(elt) if isinstance(x, tuple) and len(x) == 3 and x[0] == "idx" and x[1] == R}
     if len(lids) != 1:
         ctx.unrec("R1", "_assign_rates:index", (FILE, rets[0].line), "cannot identify the enumerate counter in the statement")
